@@ -123,11 +123,11 @@ impl<'transient, 'lifespan: 'transient, 'element> ElementSpecification<'element>
         // The one or two letter scenario, most common
         else if n < 3 {
             let first = chars.nth(0).unwrap();
-            let last = chars.last().unwrap();
+            let last = chars.last().unwrap_or(first);
             (last != '[' && last != ']' && first.is_alphabetic()).into()
         } else if n == 4 {
             let first = chars.nth(0).unwrap();
-            let last = chars.last().unwrap();
+            let last = chars.last().unwrap_or(first);
             if first.is_alphabetic() {
                 if last == ']' {
                     ElementSpecificationLike::Maybe
